@@ -14,7 +14,8 @@
 (*          <<"not">> <<"neg">> <<"any">> <<"all">>  <<"ws">>              *)
 (*          <<"(">> <<")">> <<",">> <<"/">> <<":">> <<"=">>                *)
 (***************************************************************************)
-EXTENDS Ast, TLC
+EXTENDS Ast, Cps, TLC
+CONSTANT CpsMode      \* FALSE: names are TLA+ strings; TRUE: names are code-point sequences
 
 \* ---------------------------------------------------------------- tables
 BinPrec == [ or |-> 1, and |-> 2, eq |-> 3, ne |-> 3,
@@ -38,20 +39,28 @@ Functions ==
     hassubset |-> <<2, 2>>, hassubsequence |-> <<2, 2>> ]
 GeoFunctions == [ distance |-> <<2, 2>>, length |-> <<1, 1>>, intersects |-> <<2, 2>> ]
 
+\* Names are TLA+ strings in generator trees and code-point sequences in trees read from text
+\* (CpsMode); the two never meet in one comparison, the switch is a model constant.
+KeyOf(str) == IF CpsMode THEN StrCps(str) ELSE str
+Dot == KeyOf(".")
+FnTable  == [k \in {KeyOf(f) : f \in DOMAIN Functions} |-> Functions[CHOOSE f \in DOMAIN Functions : KeyOf(f) = k]]
+GeoTable == [k \in {KeyOf(f) : f \in DOMAIN GeoFunctions} |-> GeoFunctions[CHOOSE f \in DOMAIN GeoFunctions : KeyOf(f) = k]]
+GeoKey == KeyOf("geo")
+
 \* outcome of the function table for a call  id(args) :  "ok" | <<"unknown", fullname>> | <<"argc", fullname, min, max, n>>
-FullName(id) == IF id[2] = <<>> THEN id[3] ELSE
-                LET F[i \in 1..Len(id[2])] == IF i = 1 THEN id[2][1] ELSE F[i - 1] \o "." \o id[2][i]
-                IN F[Len(id[2])] \o "." \o id[3]
+FullName(id) == IF Len(id[2]) = 0 THEN id[3] ELSE
+                LET F[i \in 1..Len(id[2])] == IF i = 1 THEN id[2][1] ELSE F[i - 1] \o Dot \o id[2][i]
+                IN F[Len(id[2])] \o Dot \o id[3]
 CallCheck(id, n) ==
-  IF id[2] = <<>> THEN
-       IF id[3] \in DOMAIN Functions
-       THEN (IF n >= Functions[id[3]][1] /\ n <= Functions[id[3]][2] THEN "ok"
-             ELSE <<"argc", id[3], Functions[id[3]][1], Functions[id[3]][2], n>>)
+  IF Len(id[2]) = 0 THEN
+       IF id[3] \in DOMAIN FnTable
+       THEN (IF n >= FnTable[id[3]][1] /\ n <= FnTable[id[3]][2] THEN "ok"
+             ELSE <<"argc", id[3], FnTable[id[3]][1], FnTable[id[3]][2], n>>)
        ELSE <<"unknown", id[3]>>
-  ELSE IF id[2] = <<"geo">> THEN
-       IF id[3] \in DOMAIN GeoFunctions
-       THEN (IF n >= GeoFunctions[id[3]][1] /\ n <= GeoFunctions[id[3]][2] THEN "ok"
-             ELSE <<"argc", FullName(id), GeoFunctions[id[3]][1], GeoFunctions[id[3]][2], n>>)
+  ELSE IF Len(id[2]) = 1 /\ id[2][1] = GeoKey THEN
+       IF id[3] \in DOMAIN GeoTable
+       THEN (IF n >= GeoTable[id[3]][1] /\ n <= GeoTable[id[3]][2] THEN "ok"
+             ELSE <<"argc", FullName(id), GeoTable[id[3]][1], GeoTable[id[3]][2], n>>)
        ELSE <<"unknown", FullName(id)>>
   ELSE "ok"
 
